@@ -36,6 +36,11 @@ func runBubble(t *testing.T, sc *gen.Scenario, trace bool, body func(e *Env)) *h
 			defer e.Close()
 			body(e)
 		}()
+		if e.DS.BudgetExceeded() {
+			out.Violation, out.Infra = nil, ""
+			out.Skip = "compute_budget_exceeded"
+			return
+		}
 		if e.Hung {
 			return
 		}
